@@ -54,6 +54,10 @@ func runC10(c *engine.Ctx, tier string) {
 		Why: "the mastership term is owned by the mastership controller (election) and mirrored into Applied.Mastership by the configuration controller; nobody else may touch it"})
 	c.Own(engine.Own{ID: "C10.1-own-master", Field: fMaster, Pkgs: []string{pkgMastershipCtl, pkgConfigCtl, pkgMsCtlV3, pkgCfgCtlV3, pkgTxCtlV3}, SkipLit: true, Min: 3,
 		Why: "the master is owned by the mastership controller and mirrored by the configuration controller"})
+	for _, f := range []string{"config/v2.ConfigurationStatus.Mastership", "config/v2.AppliedConfigurationStatus.Mastership", "config/v2.ConfigurationStatus.Applied", "config/v2.Configuration.Status"} {
+		c.Own(engine.Own{ID: "C10.1-own-struct/" + f[strings.LastIndex(f, "/")+1:], Field: f, Pkgs: []string{pkgStoreCfgV2}, SkipLit: true, Min: 0,
+			Why: "the structs that contain the mastership term are never assigned wholesale by a controller: that would reset the term (it must never decrease)"})
+	}
 	c.Guard(engine.Guard{ID: "C10.1a", Pkg: pkgMastershipCtl, None: true, Rule: "K-own(op)",
 		Sel: engine.Sel{Field: fTerm, Lit: true, Filter: func(p *engine.Path, i int) bool { return p.Events[i].Op != "++" }},
 		Why: "the term only ever grows by one: any other write could repeat or lower a term"})
